@@ -18,6 +18,10 @@ def main():
     deadline = t0 + float(os.environ.get("VERIF_DEADLINE_S", getattr(mod, "DEADLINE_S", {}).get(tier, default_deadline)))
     for v in getattr(mod, "VARIANTS", ["asan"]):
         build.ensure(v)
+    # every run starts from an empty scratch directory: files left by earlier runs (per-process include files whose process
+    # ids are handed out again) must not be served to this run
+    import shutil
+    shutil.rmtree(os.path.join(build.BUILD, "scratch", prop.lower()), ignore_errors=True)
     res = engine.run_spaces(modname, tier, deadline, seed)
     if hasattr(mod, "post"):
         mod.post(tier, res)
